@@ -69,7 +69,36 @@ def build_event(ev, ctx):
         return parse_message({"jsonrpc": "2.0", "method": "notifications/progress", "params": params})
     if k == "batch":
         return [build_event(e, ctx) for e in ev["items"]]
+    if k == "raw":
+        # a wire object at the edge of what the parser accepts (params that are an array or a
+        # scalar, a method that is not a string ...): the transports deliver exactly what
+        # parse_message accepts and drop what it refuses
+        d = _subst(ev["d"], ctx)
+        try:
+            return parse_message(d)
+        except Exception as ex:
+            raise ParserRefuses(repr(ex)[:120])
     raise ValueError(k)
+
+
+class ParserRefuses(Exception):
+    """the library's own parser refuses the wire object: a transport would drop it"""
+
+
+def _subst(x, ctx):
+    if x == "$ID":
+        return ctx["id"]
+    if x == "$TOK":
+        return ctx.get("tok")
+    if isinstance(x, dict):
+        return {k: _subst(v, ctx) for k, v in x.items()}
+    if isinstance(x, list):
+        return [_subst(v, ctx) for v in x]
+    return x
+
+
+def mid_of(v):
+    return {"s": v} if isinstance(v, str) else {"i": v}
 
 
 def resolved_event(ev, ctx):
@@ -78,6 +107,19 @@ def resolved_event(ev, ctx):
         v = _idval(x, ctx)
         return {"s": v} if isinstance(v, str) else {"i": v}
     k = ev["k"]
+    if k == "raw":
+        # an accepted edge object carries a method (the generator only makes such ones): it is a
+        # server request, a progress notification (usable only with an object for params) or
+        # another notification
+        d = _subst(ev["d"], ctx)
+        if d.get("id") is not None:
+            return {"k": "req", "id": mid_of(d["id"]), "method": str(d.get("method"))}
+        if d.get("method") == "notifications/progress":
+            ps = d.get("params") if isinstance(d.get("params"), dict) else {}
+            t = ps.get("progressToken")
+            tok = mid_of(t) if isinstance(t, (str, int)) and not isinstance(t, bool) else None
+            return {"k": "progress", "token": tok, "prog": ps.get("progress"), "total": ps.get("total"), "message": ps.get("message")}
+        return {"k": "notif", "method": str(d.get("method"))}
     if k == "err" and ev.get("id") is None:
         # an error the server could not attribute to any request (id null): to the model it is one
         # more message that bears nobody's id
@@ -282,17 +324,19 @@ async def _one(case, token, obs, streams=None, cancel_fn=None):
         if k in raises:
             raise _CB_EXCEPTIONS[(case.get("cbExc", 0) + k) % len(_CB_EXCEPTIONS)]()
 
-    def fire(ev):
+    def fire(ev, idx):
         def f():
             drain()
             try:
                 in_send.send_nowait(build_event(ev, ctx))
+            except ParserRefuses:
+                obs.setdefault("dropped", []).append(idx)  # never reaches the read stream
             except Exception as ex:  # scripted event could not be built: harness problem
                 obs.setdefault("harness_errors", []).append(repr(ex))
         return f
 
-    for a, ev in case["ev"]:
-        loop.at(t0 + a, fire(ev))
+    for idx, (a, ev) in enumerate(case["ev"]):
+        loop.at(t0 + a, fire(ev, idx))
     if case.get("eos") is not None:
         # the connection's read side ends (transport shut down, peer gone) at that tick
         loop.at(t0 + case["eos"], in_send.close)
@@ -493,7 +537,7 @@ def model_line(case, obs, poll_ticks=P_TICKS_DEFAULT):
         "token": ({"s": ctx["tok"]} if isinstance(ctx["tok"], str) else {"i": ctx["tok"]}) if ctx["tok"] is not None else None,
         "eventsFirst": case.get("tie", "events") in ("events", "io"),
         "writer": case.get("writer", "open"), "stallUntil": case.get("stallUntil"),
-        "ev": [[a, resolved_event(ev, ctx)] for a, ev in case["ev"]],
+        "ev": [[a, resolved_event(ev, ctx)] for i, (a, ev) in enumerate(case["ev"]) if i not in (obs.get("dropped") or [])],
     }
 
 
